@@ -315,8 +315,8 @@ _SCALE = {
     "C01": [scale("vwide,fat,fat,fat", quick=48)],
     "C02": [scale("vwide,deep", quick=16), plan("phname", quick=300, thorough=6000), abyss()],
     "C03": [scale("deep", quick=14), abyss()],
-    "C05": [scale("fat,vwide", quick=16)],
-    "C07": [scale("fat", quick=16)],
+    "C05": [scale("fat,vwide", quick=16), plan("joinbatch", quick=40, thorough=2000)],
+    "C07": [scale("fat", quick=16), plan("joinbatch", quick=60, thorough=3000)],
     "C10": [scale("vwide,deep,fat", quick=30), abyss()],
     "C18": [scale("vwide,deep,fat", quick=24), plan("phname", quick=200, thorough=4000)],
     "C19": [scale("vwide,fat", quick=16), plan("phname", quick=200, thorough=4000)],
